@@ -1,2 +1,649 @@
-(* Proofs for property C09. *)
-From SC.Model Require Import Base.
+(* Proofs for property C09 (dates).
+
+   1. ymd_opt_* / chrono_*   from_ymd_opt accepts exactly the existing dates; chrono's range
+   2. calc_*                 date +/- duration: fewer than 30 days are exact; the general
+                             year / month / day split (calc_add_split, calc_sub_split) and what
+                             it means for 'N months', 'N years' and 'k days'; the two recorded
+                             defects (quantisation, missing year borrow) with witnesses
+   3. small_date_*           the date rule reads exactly the existing calendar dates
+   4. to_duration_*          'A to B' = |B - A| days, symmetric
+   5. today_words, consecutive_days
+   6. print_*                month words and year elision of DateItem::print *)
+From SC.Model Require Import Base Num NumF64 Types Config Case Chrono Parser RuleFns Items Format Lexer Api Run64.
+From SC.Spec Require Import Calendar.
+From SC.Gen Require Import RustConsts ConfigData.
+From Coq Require Import ZArith Lia Bool List Floats.
+Import ListNotations.
+Local Open Scope Z_scope.
+
+(* ------------------------------------------------------------------------------------- *)
+(* 1. chrono's NaiveDate range and from_ymd_opt                                           *)
+(* ------------------------------------------------------------------------------------- *)
+Definition in_chrono (y : Z) : Prop := MIN_YEAR <= y <= MAX_YEAR.
+Definition in_chronob (y : Z) : bool := (MIN_YEAR <=? y) && (y <=? MAX_YEAR).
+
+Lemma in_chronob_spec y : in_chronob y = true <-> in_chrono y.
+Proof. unfold in_chronob, in_chrono. rewrite andb_true_iff, !Z.leb_le. tauto. Qed.
+
+Lemma ymd_opt_unfold y m d :
+  date_of_ymd_opt y m d = if in_chronob y && valid_date y m d then Some (days_from_civil y m d) else None.
+Proof. reflexivity. Qed.
+
+Lemma ymd_opt_some y m d :
+  in_chrono y -> valid_date y m d = true -> date_of_ymd_opt y m d = Some (days_from_civil y m d).
+Proof.
+  intros H V. rewrite ymd_opt_unfold, V. apply in_chronob_spec in H. rewrite H. reflexivity.
+Qed.
+
+Lemma ymd_opt_invalid y m d : valid_date y m d = false -> date_of_ymd_opt y m d = None.
+Proof. intro V. rewrite ymd_opt_unfold, V, andb_false_r. reflexivity. Qed.
+
+Lemma ymd_opt_inv y m d n :
+  date_of_ymd_opt y m d = Some n ->
+  in_chrono y /\ valid_date y m d = true /\ n = days_from_civil y m d.
+Proof.
+  rewrite ymd_opt_unfold. destruct (in_chronob y) eqn:C; [|discriminate].
+  destruct (valid_date y m d) eqn:V; [|discriminate]. cbn. intros [= <-].
+  apply in_chronob_spec in C. auto.
+Qed.
+
+(* from_ymd_opt accepts exactly the existing calendar dates (of chrono's years), and the day
+   number it returns is the one of that calendar date *)
+Theorem ymd_opt_iff y m d :
+  in_chrono y ->
+  (date_of_ymd_opt y m d <> None <-> valid_date y m d = true) /\
+  (forall n, date_of_ymd_opt y m d = Some n -> civil_from_days n = (y, m, d)).
+Proof.
+  intro C. split.
+  - split.
+    + destruct (valid_date y m d) eqn:V; [reflexivity|]. rewrite ymd_opt_invalid by exact V. congruence.
+    + intro V. rewrite ymd_opt_some by assumption. discriminate.
+  - intros n H. apply ymd_opt_inv in H as (_ & V & ->). apply civil_from_days_from_civil, V.
+Qed.
+
+Lemma valid_min : valid_date MIN_YEAR 1 1 = true. Proof. reflexivity. Qed.
+Lemma valid_max : valid_date MAX_YEAR 12 31 = true. Proof. reflexivity. Qed.
+
+Lemma chrono_day_range y m d :
+  in_chrono y -> valid_date y m d = true -> MIN_DAY <= days_from_civil y m d <= MAX_DAY.
+Proof.
+  intros [H1 H2] V. destruct (valid_date_bounds _ _ _ V) as (Hm & Hd & Hd31).
+  unfold MIN_DAY, MAX_DAY. split.
+  - destruct (Z_lt_ge_dec (days_from_civil y m d) (days_from_civil MIN_YEAR 1 1)) as [L|G]; [|lia].
+    apply days_from_civil_lt in L; [lia | exact V | exact valid_min].
+  - destruct (Z_lt_ge_dec (days_from_civil MAX_YEAR 12 31) (days_from_civil y m d)) as [L|G]; [|lia].
+    apply days_from_civil_lt in L; [lia | exact valid_max | exact V].
+Qed.
+
+Lemma chrono_year_of_day n y m d :
+  civil_from_days n = (y, m, d) -> MIN_DAY <= n <= MAX_DAY -> in_chrono y.
+Proof.
+  intros E [H1 H2]. pose proof (civil_from_days_valid _ _ _ _ E) as V.
+  pose proof (days_from_civil_of_civil_from_days _ _ _ _ E) as En.
+  destruct (valid_date_bounds _ _ _ V) as (Hm & Hd & Hd31).
+  unfold in_chrono. split.
+  - destruct (Z_lt_ge_dec y MIN_YEAR) as [L|G]; [|lia]. exfalso.
+    assert (days_from_civil y m d < days_from_civil MIN_YEAR 1 1).
+    { apply days_from_civil_lt; [exact V | exact valid_min | lia]. }
+    unfold MIN_DAY in H1. lia.
+  - destruct (Z_lt_ge_dec MAX_YEAR y) as [L|G]; [|lia]. exfalso.
+    assert (days_from_civil MAX_YEAR 12 31 < days_from_civil y m d).
+    { apply days_from_civil_lt; [exact valid_max | exact V | lia]. }
+    unfold MAX_DAY in H2. lia.
+Qed.
+
+Definition day_in_range (n : Z) : bool := (MIN_DAY <=? n) && (n <=? MAX_DAY).
+
+Lemma date_add_opt_days n k :
+  date_add_opt n (k * 86400) = if day_in_range (n + k) then Some (n + k) else None.
+Proof. unfold date_add_opt, day_in_range. rewrite Z.quot_mul by lia. reflexivity. Qed.
+
+Lemma date_add_opt_0 n : day_in_range n = true -> date_add_opt n 0 = Some n.
+Proof.
+  intro H. change 0 with (0 * 86400). rewrite date_add_opt_days, Z.add_0_r, H. reflexivity.
+Qed.
+
+Lemma ymd_opt_in_range y m d n : date_of_ymd_opt y m d = Some n -> day_in_range n = true.
+Proof.
+  intro H. apply ymd_opt_inv in H as (C & V & ->).
+  pose proof (chrono_day_range _ _ _ C V). unfold day_in_range.
+  apply andb_true_iff; rewrite !Z.leb_le; lia.
+Qed.
+
+(* a calendar date (possibly absent) as a chrono day number *)
+Definition civil_opt (o : option (Z * Z * Z)) : option Z :=
+  match o with
+  | Some (y, m, d) => if in_chronob y then Some (days_from_civil y m d) else None
+  | None => None
+  end.
+
+Lemma civil_opt_some o n : civil_opt o = Some n ->
+  exists y m d, o = Some (y, m, d) /\ in_chrono y /\ n = days_from_civil y m d.
+Proof.
+  destruct o as [[[y m] d]|]; [|discriminate]. cbn. destruct (in_chronob y) eqn:C; [|discriminate].
+  intros [= <-]. exists y, m, d. apply in_chronob_spec in C. auto.
+Qed.
+
+Lemma ymd_opt_civil y m d :
+  date_of_ymd_opt y m d = civil_opt (if valid_date y m d then Some (y, m, d) else None).
+Proof. rewrite ymd_opt_unfold. destruct (valid_date y m d); cbn; [|rewrite andb_false_r]; try reflexivity.
+  rewrite andb_true_r. reflexivity. Qed.
+
+Lemma years_step y m d k : date_of_ymd_opt (y + k) m d = civil_opt (add_years y m d k).
+Proof. rewrite ymd_opt_civil. reflexivity. Qed.
+
+Lemma months_step_add y m d k :
+  date_of_ymd_opt (y + (m - 1 + k) / 12) ((m - 1 + k) mod 12 + 1) d = civil_opt (add_months y m d k).
+Proof.
+  rewrite ymd_opt_civil. unfold add_months. cbv zeta.
+  replace (y * 12 + (m - 1) + k) with ((m - 1 + k) + y * 12) by ring.
+  rewrite Z_div_plus_full by lia. rewrite Z_mod_plus_full.
+  replace ((m - 1 + k) / 12 + y) with (y + (m - 1 + k) / 12) by ring. reflexivity.
+Qed.
+
+Lemma months_step_sub y m d k :
+  1 <= m <= 12 -> 0 <= k ->
+  date_of_ymd_opt (y - Z.quot k 12)
+                  (let mo := m - Z.rem k 12 in if mo <=? 0 then mo + 12 else mo) d
+  = civil_opt (add_months (if m <=? k mod 12 then y + 1 else y) m d (- k)).
+Proof.
+  intros Hm Hk. rewrite ymd_opt_civil. unfold add_months. cbv zeta.
+  rewrite Z.quot_div_nonneg, Z.rem_mod_nonneg by lia.
+  assert (Hr : 0 <= k mod 12 < 12) by (apply Z.mod_pos_bound; lia).
+  assert (Ek : k = 12 * (k / 12) + k mod 12) by (apply Z.div_mod; lia).
+  destruct (Z.leb_spec m (k mod 12)) as [L|L].
+  - destruct (Z.leb_spec (m - k mod 12) 0) as [L'|L']; [|lia].
+    replace ((y + 1) * 12 + (m - 1) + - k) with ((m - k mod 12 + 12 - 1) + (y - k / 12) * 12) by lia.
+    rewrite Z_div_plus_full, Z_mod_plus_full by lia.
+    rewrite (Z.div_small (m - k mod 12 + 12 - 1)), (Z.mod_small (m - k mod 12 + 12 - 1)) by lia.
+    replace (0 + (y - k / 12)) with (y - k / 12) by ring.
+    replace (m - k mod 12 + 12 - 1 + 1) with (m - k mod 12 + 12) by ring. reflexivity.
+  - destruct (Z.leb_spec (m - k mod 12) 0) as [L'|L']; [lia|].
+    replace (y * 12 + (m - 1) + - k) with ((m - k mod 12 - 1) + (y - k / 12) * 12) by lia.
+    rewrite Z_div_plus_full, Z_mod_plus_full by lia.
+    rewrite (Z.div_small (m - k mod 12 - 1)), (Z.mod_small (m - k mod 12 - 1)) by lia.
+    replace (0 + (y - k / 12)) with (y - k / 12) by ring.
+    replace (m - k mod 12 - 1 + 1) with (m - k mod 12) by ring. reflexivity.
+Qed.
+
+(* ------------------------------------------------------------------------------------- *)
+(* 2. date +/- duration (DateItem::calculate)                                             *)
+(* ------------------------------------------------------------------------------------- *)
+Lemma YEAR_val : YEAR = 31536000. Proof. reflexivity. Qed.
+Lemma MONTH_val : MONTH = 2592000. Proof. reflexivity. Qed.
+
+Lemma civil_parts n y m d :
+  civil_from_days n = (y, m, d) -> year_of n = y /\ month_of n = m /\ day_of n = d.
+Proof. unfold year_of, month_of, day_of. intros ->. auto. Qed.
+
+(* 2a. fewer than 30 days: exactly that many days away *)
+Theorem calc_days n k :
+  -30 < k < 30 ->
+  date_calc n (k * 86400) OAdd = Ok (if day_in_range (n + k) then Some (add_days n k) else None) /\
+  date_calc n (k * 86400) OSub = Ok (if day_in_range (n - k) then Some (add_days n (- k)) else None).
+Proof.
+  intro Hk.
+  assert (HY : Z.abs (k * 86400) / YEAR = 0) by (rewrite YEAR_val; apply Z.div_small; lia).
+  assert (HM : Z.abs (k * 86400) / MONTH = 0) by (rewrite MONTH_val; apply Z.div_small; lia).
+  unfold date_calc. cbv zeta. rewrite HY. cbn [Z.eqb option_bind]. rewrite HM. cbn [Z.eqb option_bind].
+  split.
+  - rewrite date_add_opt_days. reflexivity.
+  - replace (- (k * 86400)) with ((- k) * 86400) by ring. rewrite date_add_opt_days.
+    unfold add_days. replace (n + - k) with (n - k) by ring. reflexivity.
+Qed.
+
+Lemma day_in_range_chrono n y m d :
+  civil_from_days n = (y, m, d) -> day_in_range n = true -> in_chronob y = true.
+Proof.
+  intros E H. apply in_chronob_spec. apply (chrono_year_of_day n y m d E).
+  unfold day_in_range in H. apply andb_true_iff in H. rewrite !Z.leb_le in H. exact H.
+Qed.
+
+Lemma split_div a b r : 0 < b -> 0 <= r < b -> Z.abs (a * b + r) / b = a \/ a < 0.
+Proof.
+  intros Hb Hr. destruct (Z_lt_ge_dec a 0) as [L|G]; [right; exact L|left].
+  rewrite Z.abs_eq by nia. replace (a * b + r) with (r + a * b) by ring.
+  rewrite Z_div_plus_full by lia. rewrite Z.div_small by lia. ring.
+Qed.
+
+(* 2b. the general shape for a non-negative duration written as Y 365-day years, M 30-day
+   months and a remainder: the years are applied first, then the months, then the days *)
+Theorem calc_add_split n y m d Y M R :
+  civil_from_days n = (y, m, d) -> day_in_range n = true ->
+  0 <= Y -> 0 <= M -> 0 <= R < MONTH -> M * MONTH + R < YEAR ->
+  date_calc n (Y * YEAR + (M * MONTH + R)) OAdd =
+  Ok (option_bind (civil_opt (add_years y m d Y)) (fun _ =>
+      option_bind (civil_opt (add_months (y + Y) m d M)) (fun n2 => date_add_opt n2 R))).
+Proof.
+  intros E Hn HY HM HR HMR.
+  pose proof (civil_from_days_valid _ _ _ _ E) as V.
+  pose proof (days_from_civil_of_civil_from_days _ _ _ _ E) as En.
+  pose proof (day_in_range_chrono _ _ _ _ E Hn) as C.
+  destruct (civil_parts _ _ _ _ E) as (Ey & Em & Ed).
+  assert (HYv : 0 < YEAR) by (rewrite YEAR_val; lia).
+  assert (HMv : 0 < MONTH) by (rewrite MONTH_val; lia).
+  assert (D1 : Z.abs (Y * YEAR + (M * MONTH + R)) / YEAR = Y).
+  { destruct (split_div Y YEAR (M * MONTH + R) HYv) as [H|H]; [nia|exact H|lia]. }
+  assert (D2 : Z.abs (M * MONTH + R) / MONTH = M).
+  { destruct (split_div M MONTH R HMv) as [H|H]; [lia|exact H|lia]. }
+  unfold date_calc. cbv zeta. rewrite D1. f_equal.
+  (* the year step *)
+  assert (S1 : (if Y =? 0 then Some (n, Y * YEAR + (M * MONTH + R))
+                else option_map (fun d' => (d', Y * YEAR + (M * MONTH + R) - YEAR * Y))
+                                (ymd_opt (year_of n + Y) (month_of n) (day_of n)))
+               = option_map (fun d' => (d', M * MONTH + R)) (civil_opt (add_years y m d Y))).
+  { destruct (Z.eqb_spec Y 0) as [->|NZ].
+    - unfold add_years. rewrite Z.add_0_r, V. cbn [civil_opt]. rewrite C, En. cbn [option_map].
+      repeat f_equal; ring.
+    - unfold ymd_opt. rewrite Ey, Em, Ed, years_step.
+      replace (Y * YEAR + (M * MONTH + R) - YEAR * Y) with (M * MONTH + R) by ring. reflexivity. }
+  rewrite S1. clear S1.
+  destruct (civil_opt (add_years y m d Y)) as [n1|] eqn:R1; cbn [option_map option_bind]; [|reflexivity].
+  apply civil_opt_some in R1 as (y1 & m1 & d1 & A1 & C1 & ->).
+  apply add_years_valid in A1 as (V1 & -> & -> & ->).
+  pose proof (civil_from_days_from_civil _ _ _ V1) as E1.
+  destruct (civil_parts _ _ _ _ E1) as (Ey1 & Em1 & Ed1).
+  rewrite D2.
+  assert (S2 : (if M =? 0 then Some (days_from_civil (y + Y) m d, M * MONTH + R)
+                else option_map (fun d' => (d', M * MONTH + R - MONTH * M))
+                       (ymd_opt (year_of (days_from_civil (y + Y) m d) +
+                                 (month_of (days_from_civil (y + Y) m d) - 1 + M) / 12)
+                                ((month_of (days_from_civil (y + Y) m d) - 1 + M) mod 12 + 1)
+                                (day_of (days_from_civil (y + Y) m d))))
+               = option_map (fun d' => (d', R)) (civil_opt (add_months (y + Y) m d M))).
+  { destruct (Z.eqb_spec M 0) as [->|NZ].
+    - rewrite add_months_0 by exact V1. cbn [civil_opt]. apply in_chronob_spec in C1. rewrite C1.
+      cbn [option_map]. repeat f_equal; ring.
+    - unfold ymd_opt. rewrite Ey1, Em1, Ed1, months_step_add.
+      replace (M * MONTH + R - MONTH * M) with R by ring. reflexivity. }
+  rewrite S2. clear S2.
+  destruct (civil_opt (add_months (y + Y) m d M)) as [n2|]; cbn [option_map option_bind]; reflexivity.
+Qed.
+
+Theorem calc_sub_split n y m d Y M R :
+  civil_from_days n = (y, m, d) -> day_in_range n = true ->
+  0 <= Y -> 0 <= M -> 0 <= R < MONTH -> M * MONTH + R < YEAR ->
+  date_calc n (Y * YEAR + (M * MONTH + R)) OSub =
+  Ok (option_bind (civil_opt (add_years y m d (- Y))) (fun _ =>
+      option_bind (civil_opt (add_months (if m <=? M mod 12 then y - Y + 1 else y - Y) m d (- M)))
+                  (fun n2 => date_add_opt n2 (- R)))).
+Proof.
+  intros E Hn HY HM HR HMR.
+  pose proof (civil_from_days_valid _ _ _ _ E) as V.
+  pose proof (days_from_civil_of_civil_from_days _ _ _ _ E) as En.
+  pose proof (day_in_range_chrono _ _ _ _ E Hn) as C.
+  destruct (valid_date_bounds _ _ _ V) as (Hm & _).
+  destruct (civil_parts _ _ _ _ E) as (Ey & Em & Ed).
+  assert (HYv : 0 < YEAR) by (rewrite YEAR_val; lia).
+  assert (HMv : 0 < MONTH) by (rewrite MONTH_val; lia).
+  assert (D1 : Z.abs (Y * YEAR + (M * MONTH + R)) / YEAR = Y).
+  { destruct (split_div Y YEAR (M * MONTH + R) HYv) as [H|H]; [nia|exact H|lia]. }
+  assert (D2 : Z.abs (M * MONTH + R) / MONTH = M).
+  { destruct (split_div M MONTH R HMv) as [H|H]; [lia|exact H|lia]. }
+  unfold date_calc. cbv zeta. rewrite D1. f_equal.
+  assert (S1 : (if Y =? 0 then Some (n, Y * YEAR + (M * MONTH + R))
+                else option_map (fun d' => (d', Y * YEAR + (M * MONTH + R) - YEAR * Y))
+                                (ymd_opt (year_of n - Y) (month_of n) (day_of n)))
+               = option_map (fun d' => (d', M * MONTH + R)) (civil_opt (add_years y m d (- Y)))).
+  { destruct (Z.eqb_spec Y 0) as [->|NZ].
+    - unfold add_years. change (- 0) with 0. rewrite Z.add_0_r, V. cbn [civil_opt]. rewrite C, En.
+      cbn [option_map]. repeat f_equal; ring.
+    - unfold ymd_opt. rewrite Ey, Em, Ed. replace (y - Y) with (y + - Y) by ring. rewrite years_step.
+      replace (Y * YEAR + (M * MONTH + R) - YEAR * Y) with (M * MONTH + R) by ring. reflexivity. }
+  rewrite S1. clear S1.
+  destruct (civil_opt (add_years y m d (- Y))) as [n1|] eqn:R1; cbn [option_map option_bind]; [|reflexivity].
+  apply civil_opt_some in R1 as (y1 & m1 & d1 & A1 & C1 & ->).
+  apply add_years_valid in A1 as (V1 & -> & -> & ->).
+  replace (y + - Y) with (y - Y) in * by ring.
+  pose proof (civil_from_days_from_civil _ _ _ V1) as E1.
+  destruct (civil_parts _ _ _ _ E1) as (Ey1 & Em1 & Ed1).
+  rewrite D2.
+  assert (S2 : (if M =? 0 then Some (days_from_civil (y - Y) m d, M * MONTH + R)
+                else
+                  let years := year_of (days_from_civil (y - Y) m d) - Z.quot M 12 in
+                  let months := month_of (days_from_civil (y - Y) m d) - Z.rem M 12 in
+                  let months0 := if months <=? 0 then months + 12 else months in
+                  option_map (fun d' => (d', M * MONTH + R - MONTH * M))
+                             (ymd_opt years months0 (day_of (days_from_civil (y - Y) m d))))
+               = option_map (fun d' => (d', R))
+                   (civil_opt (add_months (if m <=? M mod 12 then y - Y + 1 else y - Y) m d (- M)))).
+  { destruct (Z.eqb_spec M 0) as [->|NZ].
+    - change (0 mod 12) with 0. destruct (Z.leb_spec m 0) as [L|L]; [lia|].
+      change (- 0) with 0. rewrite add_months_0 by exact V1. cbn [civil_opt].
+      apply in_chronob_spec in C1. rewrite C1. cbn [option_map]. repeat f_equal; ring.
+    - cbv zeta. unfold ymd_opt. rewrite Ey1, Em1, Ed1.
+      pose proof (months_step_sub (y - Y) m d M Hm HM) as S. cbv zeta in S. rewrite S.
+      replace (M * MONTH + R - MONTH * M) with R by ring. reflexivity. }
+  cbv zeta in S2. rewrite S2. clear S2.
+  destruct (civil_opt (add_months _ m d (- M))) as [n2|]; cbn [option_map option_bind]; reflexivity.
+Qed.
+
+Lemma finish_months y m d k :
+  option_bind (civil_opt (add_months y m d k)) (fun n2 => date_add_opt n2 0) = civil_opt (add_months y m d k).
+Proof.
+  destruct (civil_opt (add_months y m d k)) as [n2|] eqn:R; cbn [option_bind]; [|reflexivity].
+  apply civil_opt_some in R as (y' & m' & d' & A & C & ->).
+  apply add_months_valid in A as (V & _).
+  pose proof (chrono_day_range _ _ _ C V). apply date_add_opt_0. unfold day_in_range.
+  apply andb_true_iff; rewrite !Z.leb_le; lia.
+Qed.
+
+(* 'N months' as the duration rule builds it (C10_parse_month): N / 12 years of 365 days and
+   N mod 12 months of 30 days *)
+Definition month_secs (N : Z) : Z := (N / 12) * YEAR + (N mod 12) * MONTH.
+
+Lemma month_secs_small N : 0 <= N < 12 -> month_secs N = N * MONTH.
+Proof. intro H. unfold month_secs. rewrite Z.div_small, Z.mod_small by lia. ring. Qed.
+
+(* 2c. + N months: the calendar month moves by N and the day of the month is kept (None when
+   that day does not exist), provided the date reached after the whole years exists *)
+Theorem calc_months_add n y m d N :
+  civil_from_days n = (y, m, d) -> day_in_range n = true -> 0 <= N ->
+  date_calc n (month_secs N) OAdd =
+  Ok (option_bind (civil_opt (add_years y m d (N / 12))) (fun _ => civil_opt (add_months y m d N))).
+Proof.
+  intros E Hn HN. unfold month_secs.
+  assert (Hr : 0 <= N mod 12 < 12) by (apply Z.mod_pos_bound; lia).
+  assert (Hq : 0 <= N / 12) by (apply Z.div_pos; lia).
+  assert (EN : N = 12 * (N / 12) + N mod 12) by (apply Z.div_mod; lia).
+  replace (N mod 12 * MONTH) with (N mod 12 * MONTH + 0) by ring.
+  rewrite (calc_add_split n y m d (N / 12) (N mod 12) 0 E Hn Hq) by (rewrite ?MONTH_val, ?YEAR_val; lia).
+  f_equal. destruct (civil_opt (add_years y m d (N / 12))); cbn [option_bind]; [|reflexivity].
+  rewrite finish_months. unfold add_months. cbv zeta.
+  replace ((y + N / 12) * 12 + (m - 1) + N mod 12) with (y * 12 + (m - 1) + N) by lia. reflexivity.
+Qed.
+
+Corollary calc_months_add_small n y m d N :
+  civil_from_days n = (y, m, d) -> day_in_range n = true -> 0 <= N <= 11 ->
+  date_calc n (N * MONTH) OAdd = Ok (civil_opt (add_months y m d N)).
+Proof.
+  intros E Hn HN. rewrite <- month_secs_small by lia. rewrite (calc_months_add n y m d N E Hn) by lia.
+  rewrite Z.div_small by lia. unfold add_years. rewrite Z.add_0_r.
+  rewrite (civil_from_days_valid _ _ _ _ E). cbn [civil_opt].
+  rewrite (day_in_range_chrono _ _ _ _ E Hn). reflexivity.
+Qed.
+
+(* 2d. - N months: the month wraps below january WITHOUT decreasing the year: the result is the
+   calendar result for the date one year later whenever month <= N mod 12 *)
+Theorem calc_months_sub n y m d N :
+  civil_from_days n = (y, m, d) -> day_in_range n = true -> 0 <= N ->
+  date_calc n (month_secs N) OSub =
+  Ok (option_bind (civil_opt (add_years y m d (- (N / 12)))) (fun _ =>
+        civil_opt (add_months (if m <=? N mod 12 then y + 1 else y) m d (- N)))).
+Proof.
+  intros E Hn HN. unfold month_secs.
+  assert (Hr : 0 <= N mod 12 < 12) by (apply Z.mod_pos_bound; lia).
+  assert (Hq : 0 <= N / 12) by (apply Z.div_pos; lia).
+  assert (EN : N = 12 * (N / 12) + N mod 12) by (apply Z.div_mod; lia).
+  replace (N mod 12 * MONTH) with (N mod 12 * MONTH + 0) by ring.
+  rewrite (calc_sub_split n y m d (N / 12) (N mod 12) 0 E Hn Hq) by (rewrite ?MONTH_val, ?YEAR_val; lia).
+  f_equal. destruct (civil_opt (add_years y m d (- (N / 12)))); cbn [option_bind]; [|reflexivity].
+  change (- 0) with 0. rewrite finish_months. rewrite Z.mod_mod by lia.
+  unfold add_months. cbv zeta.
+  destruct (m <=? N mod 12).
+  - replace ((y - N / 12 + 1) * 12 + (m - 1) + - (N mod 12)) with ((y + 1) * 12 + (m - 1) + - N) by lia.
+    reflexivity.
+  - replace ((y - N / 12) * 12 + (m - 1) + - (N mod 12)) with (y * 12 + (m - 1) + - N) by lia.
+    reflexivity.
+Qed.
+
+Corollary calc_months_sub_calendar n y m d N :
+  civil_from_days n = (y, m, d) -> day_in_range n = true -> 0 <= N -> N mod 12 < m ->
+  valid_date (y - N / 12) m d = true -> in_chrono (y - N / 12) ->
+  date_calc n (month_secs N) OSub = Ok (civil_opt (add_months y m d (- N))).
+Proof.
+  intros E Hn HN Hm V C. rewrite (calc_months_sub n y m d N E Hn HN).
+  unfold add_years. replace (y + - (N / 12)) with (y - N / 12) by ring. rewrite V. cbn [civil_opt].
+  apply in_chronob_spec in C. rewrite C. cbn [option_bind].
+  destruct (Z.leb_spec m (N mod 12)); [lia|reflexivity].
+Qed.
+
+Lemma finish_years y m d k :
+  option_bind (civil_opt (add_years y m d k)) (fun _ =>
+    option_bind (civil_opt (add_months (y + k) m d 0)) (fun n2 => date_add_opt n2 0))
+  = civil_opt (add_years y m d k).
+Proof.
+  rewrite finish_months.
+  destruct (civil_opt (add_years y m d k)) as [n1|] eqn:R; cbn [option_bind]; [|reflexivity].
+  unfold add_years in R. destruct (valid_date (y + k) m d) eqn:V; [|discriminate].
+  rewrite add_months_0 by exact V. exact R.
+Qed.
+
+(* 2e. +/- N years: same month and day, the year moves by N (None for 29 feb -> non-leap year) *)
+Theorem calc_years n y m d N :
+  civil_from_days n = (y, m, d) -> day_in_range n = true -> 0 <= N ->
+  date_calc n (N * YEAR) OAdd = Ok (civil_opt (add_years y m d N)) /\
+  date_calc n (N * YEAR) OSub = Ok (civil_opt (add_years y m d (- N))).
+Proof.
+  intros E Hn HN.
+  pose proof (civil_from_days_valid _ _ _ _ E) as V. destruct (valid_date_bounds _ _ _ V) as (Hm & _).
+  replace (N * YEAR) with (N * YEAR + (0 * MONTH + 0)) by ring. split.
+  - rewrite (calc_add_split n y m d N 0 0 E Hn) by (rewrite ?MONTH_val, ?YEAR_val; lia).
+    rewrite finish_years. reflexivity.
+  - rewrite (calc_sub_split n y m d N 0 0 E Hn) by (rewrite ?MONTH_val, ?YEAR_val; lia).
+    change (0 mod 12) with 0. destruct (Z.leb_spec m 0) as [L|L]; [lia|]. change (- 0) with 0.
+    replace (y - N) with (y + - N) by ring. rewrite finish_years. reflexivity.
+Qed.
+
+(* 2f. what k days (k >= 0, e.g. '5 weeks' = 35 days) really do: k / 365 years, then
+   (k mod 365) / 30 months, then the remaining days *)
+Theorem calc_days_quantised n y m d k :
+  civil_from_days n = (y, m, d) -> day_in_range n = true -> 0 <= k ->
+  date_calc n (k * 86400) OAdd =
+  Ok (option_bind (civil_opt (add_years y m d (k / 365))) (fun _ =>
+      option_bind (civil_opt (add_months (y + k / 365) m d (k mod 365 / 30))) (fun n2 =>
+        if day_in_range (n2 + k mod 365 mod 30) then Some (add_days n2 (k mod 365 mod 30)) else None))).
+Proof.
+  intros E Hn Hk.
+  assert (H1 : 0 <= k mod 365 < 365) by (apply Z.mod_pos_bound; lia).
+  assert (H2 : 0 <= k mod 365 mod 30 < 30) by (apply Z.mod_pos_bound; lia).
+  assert (H3 : 0 <= k / 365) by (apply Z.div_pos; lia).
+  assert (H4 : 0 <= k mod 365 / 30) by (apply Z.div_pos; lia).
+  assert (E1 : k = 365 * (k / 365) + k mod 365) by (apply Z.div_mod; lia).
+  assert (E2 : k mod 365 = 30 * (k mod 365 / 30) + k mod 365 mod 30) by (apply Z.div_mod; lia).
+  replace (k * 86400) with (k / 365 * YEAR + (k mod 365 / 30 * MONTH + (k mod 365 mod 30) * 86400))
+    by (rewrite YEAR_val, MONTH_val; lia).
+  rewrite (calc_add_split n y m d _ _ _ E Hn H3 H4) by (rewrite ?MONTH_val, ?YEAR_val; lia).
+  f_equal. destruct (civil_opt (add_years y m d (k / 365))); cbn [option_bind]; [|reflexivity].
+  destruct (civil_opt (add_months (y + k / 365) m d (k mod 365 / 30))); cbn [option_bind]; [|reflexivity].
+  apply date_add_opt_days.
+Qed.
+
+(* the item level: the time zone label is kept, nothing but a duration can be added, no panic *)
+Theorem calc_item {F} {NF : Num F} (bexec : config F -> str -> res (option F)) cfg n tz r op :
+  calculate bexec cfg (IDate n tz) r op =
+  match r with
+  | IDuration dur =>
+    match date_calc n dur op with
+    | Ok o => Ok (option_map (fun n' => IDate n' tz) o)
+    | Panic p => Panic p
+    end
+  | _ => Ok None
+  end /\ (forall dur, exists o, date_calc n dur op = Ok o).
+Proof.
+  split.
+  - destruct r; reflexivity.
+  - intro dur. destruct op; eexists; reflexivity.
+Qed.
+
+(* witnesses of the two recorded defects *)
+Theorem calc_days_refuted :
+  let n := days_from_civil 2021 3 1 in
+  date_calc n (30 * 86400) OSub = Ok (Some (days_from_civil 2021 2 1)) /\
+  add_days n (- 30) = days_from_civil 2021 1 30 /\
+  date_calc n (35 * 86400) OAdd = Ok (Some (days_from_civil 2021 4 6)) /\
+  add_days n 35 = days_from_civil 2021 4 5 /\
+  date_calc (days_from_civil 2020 2 29) (month_secs 13) OAdd = Ok None /\
+  add_months 2020 2 29 13 = Some (2021, 3, 29).
+Proof. vm_compute. repeat split; reflexivity. Qed.
+
+Theorem calc_months_sub_refuted :
+  date_calc (days_from_civil 2021 3 15) (month_secs 3) OSub = Ok (Some (days_from_civil 2021 12 15)) /\
+  add_months 2021 3 15 (- 3) = Some (2020, 12, 15) /\
+  date_calc (days_from_civil 2019 1 28) (month_secs 14) OSub = Ok (Some (days_from_civil 2018 11 28)) /\
+  add_months 2019 1 28 (- 14) = Some (2017, 11, 28).
+Proof. vm_compute. repeat split; reflexivity. Qed.
+
+Theorem calc_examples :
+  date_calc (days_from_civil 2020 2 28) (2 * 86400) OAdd = Ok (Some (days_from_civil 2020 3 1)) /\
+  date_calc (days_from_civil 2021 2 28) (2 * 86400) OAdd = Ok (Some (days_from_civil 2021 3 2)) /\
+  date_calc (days_from_civil 2021 1 1) (1 * 86400) OSub = Ok (Some (days_from_civil 2020 12 31)) /\
+  date_calc (days_from_civil 2021 1 31) (month_secs 1) OAdd = Ok None /\
+  date_calc (days_from_civil 2021 11 15) (month_secs 1) OAdd = Ok (Some (days_from_civil 2021 12 15)) /\
+  date_calc (days_from_civil 2021 12 15) (month_secs 1) OAdd = Ok (Some (days_from_civil 2022 1 15)) /\
+  date_calc (days_from_civil 2019 4 1) (month_secs 3) OSub = Ok (Some (days_from_civil 2019 1 1)) /\
+  date_calc (days_from_civil 2020 2 29) (4 * YEAR) OAdd = Ok (Some (days_from_civil 2024 2 29)) /\
+  date_calc (days_from_civil 2020 2 29) (1 * YEAR) OAdd = Ok None /\
+  date_calc (days_from_civil 1988 2 12) (32 * YEAR) OAdd = Ok (Some (days_from_civil 2020 2 12)).
+Proof. vm_compute. repeat split; reflexivity. Qed.
+
+(* ------------------------------------------------------------------------------------- *)
+(* 3. reading a date: the small_date rule                                                 *)
+(* ------------------------------------------------------------------------------------- *)
+Section SmallDate.
+Context {F : Type} {NF : Num F}.
+Variable now_year : Z.
+
+(* the year of the pattern, the current year when the pattern has no year field *)
+Definition sd_year (vs : vars F) (fs : fields F) : Z :=
+  match get_number vs (s "year") fs with Some y => as_i32 y | None => now_year end.
+
+Theorem small_date_exact cfg vs fs :
+  small_date now_year cfg vs fs =
+  if has "day" fs && has "month" fs then
+    match get_number vs (s "day") fs, get_number_or_month vs (s "month") fs with
+    | Some day, Some month =>
+      let y := sd_year vs fs in let d := as_u32 day in
+      Ok (option_map (fun n => TDate n (get_time_offset cfg))
+                     (civil_opt (if valid_date y month d then Some (y, month, d) else None)))
+    | _, _ => Ok None
+    end
+  else Ok None.
+Proof.
+  unfold small_date, none, some, sd_year.
+  destruct (has "day" fs && has "month" fs); [|reflexivity].
+  destruct (get_number vs (s "day") fs) as [day|]; [|reflexivity].
+  destruct (get_number_or_month vs (s "month") fs) as [month|]; [|reflexivity].
+  cbv zeta. rewrite ymd_opt_civil.
+  destruct (civil_opt _); reflexivity.
+Qed.
+
+(* whatever the rule accepts is an existing calendar date, read from the fields *)
+Theorem small_date_sound cfg vs fs t :
+  small_date now_year cfg vs fs = Ok (Some t) ->
+  exists day month n,
+    get_number vs (s "day") fs = Some day /\ get_number_or_month vs (s "month") fs = Some month /\
+    t = TDate n (get_time_offset cfg) /\
+    valid_date (sd_year vs fs) month (as_u32 day) = true /\ in_chrono (sd_year vs fs) /\
+    n = days_from_civil (sd_year vs fs) month (as_u32 day) /\
+    civil_from_days n = (sd_year vs fs, month, as_u32 day).
+Proof.
+  rewrite small_date_exact.
+  destruct (has "day" fs && has "month" fs); [|discriminate].
+  destruct (get_number vs (s "day") fs) as [day|]; [|discriminate].
+  destruct (get_number_or_month vs (s "month") fs) as [month|]; [|discriminate].
+  cbv zeta. destruct (valid_date (sd_year vs fs) month (as_u32 day)) eqn:V; [|discriminate].
+  cbn [civil_opt]. destruct (in_chronob (sd_year vs fs)) eqn:C; [|discriminate].
+  cbn [option_map]. intros [= <-]. exists day, month, (days_from_civil (sd_year vs fs) month (as_u32 day)).
+  apply in_chronob_spec in C.
+  refine (conj eq_refl (conj eq_refl (conj eq_refl (conj V (conj C (conj eq_refl _)))))).
+  apply civil_from_days_from_civil, V.
+Qed.
+
+(* every existing calendar date (of chrono's years) is accepted; impossible dates never are;
+   the rule never panics *)
+Theorem small_date_complete cfg vs fs day month :
+  has "day" fs && has "month" fs = true ->
+  get_number vs (s "day") fs = Some day -> get_number_or_month vs (s "month") fs = Some month ->
+  (valid_date (sd_year vs fs) month (as_u32 day) = true -> in_chrono (sd_year vs fs) ->
+   small_date now_year cfg vs fs
+   = Ok (Some (TDate (days_from_civil (sd_year vs fs) month (as_u32 day)) (get_time_offset cfg)))) /\
+  (valid_date (sd_year vs fs) month (as_u32 day) = false -> small_date now_year cfg vs fs = Ok None).
+Proof.
+  intros H Hd Hm. rewrite small_date_exact, H, Hd, Hm. cbv zeta. split.
+  - intros V C. rewrite V. cbn [civil_opt]. apply in_chronob_spec in C. rewrite C. reflexivity.
+  - intros V. rewrite V. reflexivity.
+Qed.
+
+Theorem small_date_no_panic cfg vs fs : exists o, small_date now_year cfg vs fs = Ok o.
+Proof.
+  rewrite small_date_exact.
+  destruct (has "day" fs && has "month" fs); [|eexists; reflexivity].
+  destruct (get_number vs (s "day") fs); [|eexists; reflexivity].
+  destruct (get_number_or_month vs (s "month") fs); eexists; reflexivity.
+Qed.
+
+Theorem small_date_default_year vs fs :
+  get_number vs (s "year") fs = None -> sd_year vs fs = now_year.
+Proof. unfold sd_year. intros ->. reflexivity. Qed.
+
+(* ------------------------------------------------------------------------------------- *)
+(* 4. 'A to B' on two dates                                                               *)
+(* ------------------------------------------------------------------------------------- *)
+Lemma get_date_not_time (vs : vars F) k (fs : fields F) x :
+  get_date vs k fs = Some x -> get_time vs k fs = None.
+Proof.
+  unfold get_date, get_time. destruct (field_token vs k fs) as [t|]; [|discriminate].
+  destruct t; try discriminate; try reflexivity.
+  destruct (var_item vs name) as [i|]; [|discriminate]. destruct i; try discriminate; reflexivity.
+Qed.
+
+Theorem to_duration_dates (vs : vars F) (fs : fields F) a b tza tzb :
+  has "source" fs && has "target" fs = true ->
+  get_date vs (s "source") fs = Some (a, tza) -> get_date vs (s "target") fs = Some (b, tzb) ->
+  to_duration vs fs = Ok (Some (TDuration (Z.abs (diff_days a b) * 86400))).
+Proof.
+  intros H Ha Hb. unfold to_duration. rewrite H.
+  rewrite (get_date_not_time _ _ _ _ Ha), Ha, Hb. reflexivity.
+Qed.
+
+(* symmetric: exchanging the two dates gives the same duration *)
+Theorem to_duration_symmetric (vs : vars F) (fs1 fs2 : fields F) a b tza tzb tza' tzb' :
+  has "source" fs1 && has "target" fs1 = true -> has "source" fs2 && has "target" fs2 = true ->
+  get_date vs (s "source") fs1 = Some (a, tza) -> get_date vs (s "target") fs1 = Some (b, tzb) ->
+  get_date vs (s "source") fs2 = Some (b, tzb') -> get_date vs (s "target") fs2 = Some (a, tza') ->
+  to_duration vs fs1 = to_duration vs fs2.
+Proof.
+  intros H1 H2 A1 B1 B2 A2.
+  rewrite (to_duration_dates vs fs1 a b tza tzb H1 A1 B1), (to_duration_dates vs fs2 b a tzb' tza' H2 B2 A2).
+  rewrite diff_days_abs_sym. reflexivity.
+Qed.
+End SmallDate.
+
+(* ------------------------------------------------------------------------------------- *)
+(* 5. today, tomorrow, yesterday                                                          *)
+(* ------------------------------------------------------------------------------------- *)
+(* the tokens the lexer produces for a whole line, with the default configuration *)
+Definition line_tokens (today : Z) (lang w : str) : option (list (option (token float))) :=
+  match token_infos LX today default_config lang w with
+  | Ok l => Some (map (fun i => ti_ty i) l)
+  | Panic _ => None
+  end.
+
+Definition UTC : tzinfo := get_time_offset default_config.
+
+(* bugün yarın dün (and their ASCII spellings) *)
+Definition tr_today : list str :=
+  [[98; 117; 103; 252; 110]%N; s "bugun"; [121; 97; 114; 305; 110]%N; s "yarin"; [100; 252; 110]%N; s "dun"].
+
+Theorem today_words today :
+  map (line_tokens today (s "en")) [s "today"; s "tomorrow"; s "yesterday"]
+  = map (fun d => Some [Some (TDate d UTC)]) [today; today + 1; today - 1] /\
+  map (line_tokens today (s "tr")) tr_today
+  = map (fun d => Some [Some (TDate d UTC)]) [today; today; today + 1; today + 1; today - 1; today - 1].
+Proof. split; vm_compute; reflexivity. Qed.
+
+(* ... are consecutive calendar days *)
+Definition prev_date_of (a b : Z * Z * Z) : Prop := let '(y, m, d) := a in b = next_date y m d.
+
+Theorem consecutive_days today :
+  add_days today 1 = today + 1 /\ add_days today (- 1) = today - 1 /\
+  prev_date_of (civil_from_days today) (civil_from_days (today + 1)) /\
+  prev_date_of (civil_from_days (today - 1)) (civil_from_days today) /\
+  diff_days (today - 1) today = 1 /\ diff_days today (today + 1) = 1.
+Proof.
+  unfold add_days, diff_days, prev_date_of. repeat split; try ring.
+  - pose proof (civil_from_days_succ today) as H. destruct (civil_from_days today) as [[y m] d]. exact H.
+  - pose proof (civil_from_days_succ (today - 1)) as H. replace (today - 1 + 1) with today in H by ring.
+    destruct (civil_from_days (today - 1)) as [[y m] d]. exact H.
+Qed.
